@@ -124,6 +124,10 @@ func (wg *WeightedAuthorizationModelGraph) HasEdge(fromNode, toNode *WeightedAut
 
 // AssignWeights assigns weights to all the edges and nodes of the graph.
 func (wg *WeightedAuthorizationModelGraph) AssignWeights() error {
+	if wg.hasRewriteCycle() {
+		return ErrModelCycle
+	}
+
 	visited := make(map[string]bool)
 	ancestorPath := make([]*WeightedAuthorizationModelEdge, 0)
 	tupleCycleDependencies := make(map[string][]*WeightedAuthorizationModelEdge)
@@ -142,6 +146,48 @@ func (wg *WeightedAuthorizationModelGraph) AssignWeights() error {
 		}
 	}
 	return nil
+}
+
+// hasRewriteCycle reports whether the graph contains a cycle made only of rewrite and computed edges,
+// i.e. a cycle that can be traversed without consuming a tuple (for example "define a: b" and "define b: a",
+// possibly through operators, or a relation that references itself). Such a model is never valid, no matter
+// what other edges the relations on the cycle have. The check does not depend on the order in which
+// AssignWeights later visits the nodes.
+func (wg *WeightedAuthorizationModelGraph) hasRewriteCycle() bool {
+	const (
+		visiting = 1
+		done     = 2
+	)
+
+	state := make(map[string]int, len(wg.nodes))
+
+	var visit func(nodeID string) bool
+	visit = func(nodeID string) bool {
+		state[nodeID] = visiting
+		for _, edge := range wg.edges[nodeID] {
+			if edge.edgeType != RewriteEdge && edge.edgeType != ComputedEdge {
+				continue
+			}
+			switch state[edge.to.uniqueLabel] {
+			case visiting:
+				return true
+			case done:
+				continue
+			}
+			if visit(edge.to.uniqueLabel) {
+				return true
+			}
+		}
+		state[nodeID] = done
+		return false
+	}
+
+	for nodeID := range wg.nodes {
+		if state[nodeID] == 0 && visit(nodeID) {
+			return true
+		}
+	}
+	return false
 }
 
 func (wg *WeightedAuthorizationModelGraph) calculateEdgeWildcards(edge *WeightedAuthorizationModelEdge) {
